@@ -483,6 +483,37 @@ func propC15(c *Ctx) {
 		}
 	})
 
+	// the quorum is counted against the RECORDED set: every answer of the store's readers
+	// (total power, a validator's power, key and record, the recorded height) comes from a read
+	// of the store made in that very call - a memo held by the store object is not rolled back
+	// with a discarded context and answers for a set that was never recorded
+	c.Rule("C15.R7", func() {
+		for _, rd := range [][2]string{{"TotalBondedTokens", "validators"}, {"GetPowerByConsAddr", "validators"}, {"GetPubKeyByConsAddr", "validators"}, {"ValidatorByConsAddr", "validators"}, {"GetAllValidators", "validators"}, {"GetLastHeight", "lastHeight"}} {
+			fn := c.Method(childKeeper, "HostValidatorStore", rd[0])
+			o := c.Ob("C15.R7", "HostValidatorStore."+rd[0]+": every answer follows a read of the stored "+rd[1]+" in the same call")
+			names := []string{"hv", "ctx", "a", "b", "c"}
+			for _, p := range c.Paths(fn, PO{Params: names[:len(fn.Params)], Callbacks: true, Visits: 3}) {
+				o.Paths++
+				if p.Panic {
+					continue
+				}
+				o.Sites++
+				read := false
+				for i := range p.Events {
+					if f, m, ok := collOp(&p.Events[i]); ok && f == rd[1] && collReads[m] {
+						read = true
+					}
+				}
+				if !read {
+					o.Fail(c.W.Pos(fn.Pos()), "returns "+trunc(retKey(p), 120)+" without reading the stored "+rd[1], c.Dump(p, -1))
+				}
+			}
+			if o.Sites == 0 {
+				o.Fail(c.W.Pos(fn.Pos()), "no returning path", nil)
+			}
+		}
+	})
+
 	c.Rule("C15.R6", func() {
 		errorDiscipline(c, "C15.R6", "Keeper.UpdateHostValidatorSet", c.Method(childKeeper, "Keeper", "UpdateHostValidatorSet"), PO{Params: []string{"k", "ctx", "clientID", "height", "vs"}, Visits: 3})
 		errorDiscipline(c, "C15.R6", "L2OracleHandler.UpdateOracle", c.Method(childKeeper, "L2OracleHandler", "UpdateOracle"), PO{Params: []string{"k", "ctx", "height", "bz"}, Visits: 2, NoInline: []string{encoderNameOf(c)}, Pure: []string{encoderNameOf(c)}})
@@ -618,4 +649,12 @@ func propC15(c *Ctx) {
 func encoderNameOf(c *Ctx) string {
 	n, _ := signBytesEncoderName(c)
 	return n
+}
+
+func retKey(p *Path) string {
+	var ks []string
+	for _, r := range p.Ret {
+		ks = append(ks, r.Key())
+	}
+	return "(" + strings.Join(ks, ", ") + ")"
 }
